@@ -943,6 +943,36 @@ RESERVED |= set("py_dict_mem py_dict_set py_dict_del py_dict_fromkeys py_dict_up
                 "py_net_ltb py_index py_list_from py_sum py_cidr_merge_nets py_iprange py_net_of_addr py_net_previous py_net_next py_map_o".split())
 
 
+MESSAGE_BUILTINS = ("hex", "str", "type", "repr", "len")
+# ast.dump (docstring removed) of `def _arg_repr(value)` of netaddr/ip/__init__.py: repr(value), or hex(value) / object.__repr__(value)
+# when repr raises ValueError
+ARG_REPR_DUMP = ("FunctionDef(name='_arg_repr', args=arguments(posonlyargs=[], args=[arg(arg='value')], kwonlyargs=[], kw_defaults=[], "
+                 "defaults=[]), body=[Try(body=[Return(value=Call(func=Name(id='repr', ctx=Load()), args=[Name(id='value', ctx=Load())], "
+                 "keywords=[]))], handlers=[ExceptHandler(type=Name(id='ValueError', ctx=Load()), body=[If(test=Call(func=Name(id='isinstance', "
+                 "ctx=Load()), args=[Name(id='value', ctx=Load()), Name(id='_int_type', ctx=Load())], keywords=[]), body=[Return(value=Call("
+                 "func=Name(id='hex', ctx=Load()), args=[Name(id='value', ctx=Load())], keywords=[]))], orelse=[]), Return(value=Call(func="
+                 "Attribute(value=Name(id='object', ctx=Load()), attr='__repr__', ctx=Load()), args=[Name(id='value', ctx=Load())], keywords=[]))])], "
+                 "orelse=[], finalbody=[])], decorator_list=[])")
+
+
+def arg_repr_ok(mod, node):
+    tree = mod.tree
+    binds = [n for n in ast.walk(tree) if (isinstance(n, (ast.FunctionDef, ast.ClassDef)) and n.name == "_arg_repr")
+             or (isinstance(n, ast.Name) and n.id == "_arg_repr" and isinstance(n.ctx, (ast.Store, ast.Del)))
+             or (isinstance(n, ast.alias) and (n.asname or n.name) == "_arg_repr")]
+    if len(binds) != 1 or binds[0] not in tree.body or not isinstance(binds[0], ast.FunctionDef):
+        bad(node, "_arg_repr is not bound exactly once, by a plain top-level def")
+    f = binds[0]
+    body = f.body[1:] if (f.body and isinstance(f.body[0], ast.Expr) and isinstance(f.body[0].value, ast.Constant)
+                          and isinstance(f.body[0].value.value, str)) else f.body
+    g = ast.FunctionDef(name=f.name, args=f.args, body=body, decorator_list=f.decorator_list, returns=None, type_comment=None)
+    d = ast.dump(g)
+    d = d.replace(", returns=None", "").replace(", type_comment=None", "")
+    if d != ARG_REPR_DUMP:
+        bad(node, "_arg_repr is not the pinned definition (repr, else hex / object.__repr__ on ValueError)")
+    return True
+
+
 class Untranslatable(Exception):
     pass
 
@@ -2041,8 +2071,25 @@ class Fn:
                 bad(s, "raise of something other than a known exception class")
             if env["@mut"]:
                 bad(s, "raise after a state assignment (the object would be left modified)")
+            self.raise_message_ok(s)
             return ("raise", e.id)
         bad(s, "statement %s" % type(s).__name__)
+
+    # The message of a `raise E(<message>)` is not translated (the model keeps the exception class only), but building it must not be
+    # able to raise something else instead: inside the message only calls of the builtins MESSAGE_BUILTINS and of the module's own
+    # helper _arg_repr are accepted, and _arg_repr must be THE definition pinned in ARG_REPR_DUMP, bound once, by a plain top-level `def`
+    # (not under an `if`, not re-bound): it prints an argument that CPython may refuse to print in decimal (int -> str digit limit).
+    def raise_message_ok(self, s):
+        if not isinstance(s.exc, ast.Call):
+            return
+        for a in list(s.exc.args) + [k.value for k in s.exc.keywords]:
+            for c in ast.walk(a):
+                if isinstance(c, ast.Call):
+                    name = c.func.id if isinstance(c.func, ast.Name) else None
+                    if name == "_arg_repr":
+                        arg_repr_ok(self.mod, s)
+                    elif name not in MESSAGE_BUILTINS:
+                        bad(s, "call of %s inside an exception message (not known to be unable to raise)" % ast.unparse(c.func))
 
     def return_(self, s, env):
         if env["@break"] is not None and not env["@lret"]:
